@@ -193,6 +193,7 @@ type frame struct {
 }
 
 type deferred struct {
+	guardAt string
 	call  *ssa.CallCommon
 	args  []Val
 	block *ssa.BasicBlock
